@@ -121,7 +121,8 @@ def q2J (g : Graph) (t : Option Int) (nb : Option (List Node)) : J :=
                 ("in_inter_iter", interJ g (g.inInteractions nb t)), ("out_inter_iter", interJ g (g.outInteractions nb t))] else []) ++
     (let dg := degJ (nbl.map (fun n => (n, g.degree n t)))
      [("deg", dg), ("deg_iter", dg), ("f_deg", dg)] ++
-       (if nb.isSome then [("deg_once", dg), ("inter_once", interJ g (g.interactions nb t))] else [])) ++
+       (if nb.isSome then [("deg_once", dg), ("deg_set", dg), ("inter_once", interJ g (g.interactions nb t)),
+                          ("inter_tuple", interJ g (g.interactions nb t))] else [])) ++
     (if d then
       let i := degJ (nbl.map (fun n => (n, g.inDegree n t)))
       let o := degJ (nbl.map (fun n => (n, g.outDegree n t)))
